@@ -33,6 +33,12 @@ func absNum(u uint64) int {
 	switch {
 	case u == ^uint64(0):
 		return 1000000009
+	// (the adversary's extreme values get representatives of their own: 2^63+1 and 2^64-2 have the same residue modulo 5 - as one
+	// representative they looked like one view with a quorum of votes to the specification, conformance drift in soak seed 100)
+	case u == ^uint64(0)-1:
+		return 1000000008
+	case u == 1<<63+1:
+		return 1000000006
 	case u >= 1<<63:
 		return 1000000005
 	case u >= 1<<32:
